@@ -1168,7 +1168,7 @@ fn run_all(tier: &str, seed: u64, rep: &mut Report) {
     }
 
     // ---- end to end through the real init on the simulated segment
-    let networks = if thorough { 600 } else { 60 };
+    let networks = if thorough { 600 } else { 180 };
     let trials = if thorough { 24 } else { 10 };
     let sim_caps: Vec<usize> = {
         let mut v: Vec<usize> = vec![30, 31, 44, 50, 51, 58, 64, 100, 128, 256, 600, 1128, 1514];
